@@ -14,7 +14,8 @@ Verdicts(o) ==
   ELSE IF o.case.fragile THEN {}
   ELSE
     LET A == SeqSet(o.case.dist.alts)
-        M == [a \in A |-> [b \in A |-> RNorm(o.case.m4[a][b], 4)]]
+        den == IF Has(o.case, "mden") THEN o.case.mden ELSE 4
+        M == [a \in A |-> [b \in A |-> RNorm(o.case.m4[a][b], den)]]
         s == [a |-> <<o.case.sa[1], o.case.sa[2]>>, b |-> <<o.case.sb[1], o.case.sb[2]>>]
         P == Prep(M, A, s)
         asc == DistilP(P, A, s, MaxCred(M, A), 1, "asc", FALSE)
